@@ -316,7 +316,7 @@ pub fn known_findings() -> &'static KnownFindings {
     use std::sync::OnceLock;
     static KF: OnceLock<KnownFindings> = OnceLock::new();
     KF.get_or_init(|| {
-        let path = format!("{VERIF_ROOT}/known_findings.json");
+        let path = std::env::var("VCHECK_KNOWN_FINDINGS").unwrap_or_else(|_| format!("{VERIF_ROOT}/known_findings.json"));
         match std::fs::read_to_string(&path) {
             Ok(text) => {
                 let v: Value = serde_json::from_str(&text).unwrap_or_else(|e| {
